@@ -149,7 +149,9 @@ fn moduli(quick: bool, seed: u64) -> Vec<Md> {
         let (p, q) = (odd(shape(2, "lcgA", seed)), odd(shape(2, "lcgB", seed) >> 9u32));
         add(true, "4w:P2*Q2", &p * &q, Some(p));
     }
-    add(false, "4w:sparse", shape(4, "sparse", seed), None);
+    add(true, "4w:sparse", shape(4, "sparse", seed), None);
+    add(true, "4w:2^255+12345", p2(255) + 12345u32, None);
+    add(true, "6w:2^383+1", p2(383) + 1u32, None);
     add(false, "4w:lcgB,even", even(shape(4, "lcgB", seed)), None);
     add(false, "5w:top1", shape(5, "top1", seed), None);
     add(false, "5w:lcgA,odd", odd(shape(5, "lcgA", seed)), None);
@@ -178,7 +180,7 @@ fn moduli(quick: bool, seed: u64) -> Vec<Md> {
 // operands
 
 /// modulus-relative operands: they sit on the wrap / borrow / reduction boundaries of the ring
-const NREL: usize = 20;
+const NREL: usize = 25;
 fn rel(m: &Md, k: usize) -> BigInt {
     let mi = &m.vi;
     let one = BigInt::one();
@@ -204,6 +206,13 @@ fn rel(m: &Md, k: usize) -> BigInt {
         17 => &one << (64 * len64),
         18 => m.factor.as_ref().map(|f| BigInt::from(f.clone()) * BigInt::from(-3)).unwrap_or_else(|| -one.clone()),
         19 => (mi - 1) * (mi - 1),
+        // operands of (about) half the modulus length whose square / pairwise product exceeds m:
+        // the short-operand paths of mul / sqr that skip the long division
+        20 => (&one << (32 * len64)) - 1,
+        21 => (&one << (32 * len64)) - 3,
+        22 => BigInt::from(m.v.sqrt()),
+        23 => BigInt::from(m.v.sqrt()) + 1,
+        24 => (&one << (32 * len64 + 32)) - 5,
         _ => unreachable!(),
     }
 }
